@@ -114,6 +114,11 @@ func runC12(c *core.Ctx) {
 	c.Exhaustive("all values 0..259 at width 1")
 	c.Job("width2", 65536+4, func(i int, r *core.Rand) { c12Int(c, i, 2) })
 	c.Exhaustive("all values 0..65539 at width 2")
+	if c.Thorough() {
+		// width 3: every value as well (16.7 million), plus the first values that do not fit
+		c.Job("width3", 1<<24+4, func(i int, r *core.Rand) { c12Int(c, i, 3) })
+		c.Exhaustive("all values 0..16777219 at width 3")
+	}
 	// boundaries for every width and invalid sizes
 	var bnd []int
 	for n := 1; n <= 8; n++ {
